@@ -933,15 +933,46 @@ def run(ctx):
     T1 = time.time()
     res = vlib.run_inputs(jobs, timeout_each=20, workers=min(6, vlib.NCPU))
     vlib.log("[C15] %d engine runs %.1fs" % (len(jobs), time.time() - T1))
+    if os.environ.get("C15_DEBUG"):
+        os.makedirs("/tmp/c15dbg", exist_ok=True)
+        for k, j in enumerate(jobs):
+            open("/tmp/c15dbg/%05d_%s.pqi" % (k, j["id"]), "w").write(j["text"])
+        for j in jobs:
+            r = res.get(j["id"])
+            if r is None or "rc" not in r:
+                vlib.log("[C15][debug] job %s -> %s" % (j["id"], json.dumps(r)[:600]))
 
-    all_cells, owners = [], []
     stats = {"pairs": 0, "error_runs": 0, "timeouts": 0, "cells": 0}
+    # A job without a usable result (nothing returned, time-out, crash of the shared harness process, or the database
+    # failing to load into the re-used instance) is re-run ALONE in a fresh process with ten times the time limit.
+    # Only a job that does not return even then is reported, under its own key; it is never an "acceptance difference".
+    no_result = lambda r: (r is None) or ("rc" not in r) or r.get("timeout") or r.get("crash") or ("dberr" in r)
+    retry = [j for j in jobs if no_result(res.get(j["id"]))]
+    if retry:
+        stats["retried_alone"] = len(retry)
+        stats["retry_reasons"] = sorted(set("missing" if res.get(j["id"]) is None else ("dberr" if "dberr" in res[j["id"]] else
+                                            ("timeout" if res[j["id"]].get("timeout") else "crash")) for j in retry))
+        vlib.log("[C15] %d job(s) without a result (%s): re-running each alone with a 200 s limit" % (len(retry), ", ".join(stats["retry_reasons"])))
+        for c0 in range(0, len(retry), 6):
+            part = [{"id": j["id"], "db": j["db"], "text": j["text"]} for j in retry[c0:c0 + 6]]
+            # workers >= len(part)  =>  run_inputs puts every job into its own harness process
+            for jid, r in vlib.run_inputs(part, timeout_each=200, workers=6).items():
+                res[jid] = r
+    all_cells, owners = [], []
     dist = {}
     worst = {}
     for i, (fam, t, S, V) in enumerate(plan):
         rb, rv = res.get("b%d" % i, {}), res.get("v%d" % i, {})
-        if rb.get("timeout") or rv.get("timeout") or rb.get("crash") or rv.get("crash"):
+        if no_result(rb) or no_result(rv):
+            # still nothing after the solitary re-run with a 200 s limit
             stats["timeouts"] += 1
+            which = "base" if no_result(rb) else "variant"
+            rr = rb if no_result(rb) else rv
+            ctx.violation("noreturn:%s:%s" % (fam, t),
+                          "the %s input of a %s/%s pair did not return a result even when run alone with a 200 s limit (%s)" % (
+                              which, fam, t, json.dumps({k: rr.get(k) for k in ("timeout", "crash", "rc_proc", "dberr", "stderr") if rr and k in rr})[:300]),
+                          {"kind": "input", "database": DBNAME, "input_text": texts[i][0 if which == "base" else 1], "family": fam, "transform": t,
+                           "observed": "no result within 200 s (alone, fresh process)", "expected": "the run returns"})
             continue
         if rb.get("rc", 1) != 0 and rv.get("rc", 1) != 0:
             stats["error_runs"] += 1       # outside the premises: the base input itself is rejected
@@ -956,6 +987,8 @@ def run(ctx):
             key = "accept:%s:%s" % (fam, t)
             ctx.violation(key, "equivalent descriptions: one runs, the other ends in ERROR (%s / %s): %s" % (fam, t, (rb.get("err") or rv.get("err") or "")[:200]),
                           {"kind": "input", "database": DBNAME, "input_text": texts[i][1], "base_input_text": texts[i][0], "family": fam, "transform": t,
+                           "k": V["k"], "mixscale": V.get("mixscale", 1.0), "rebatch": [[a, b] for a, b in V.get("rebatch", {}).items()],
+                           "renum": [[kd, a, b] for (kd, a), b in V["renum"].items()],
                            "observed": {"base_rc": rb.get("rc"), "variant_rc": rv.get("rc"), "err": (rb.get("err") or "") + (rv.get("err") or "")}, "expected": "both run"})
             continue
         cells = compare(S, V, rb, rv)
@@ -1023,13 +1056,62 @@ def run(ctx):
                   "batch bases carry dissolved O(0) so that pe is determined by a redox couple; without one pe is numerically undetermined (H/O mass balance cancellation) and is not an invariant the engine can deliver"]
 
 
+def replay_sequence(ctx, rp):
+    """inputs run one after the other in ONE harness process (one IPhreeqc instance, database re-loaded per input),
+    with the path shapes vlib.run_inputs uses; reports when a job loses its result or the process dies"""
+    import tempfile, shutil
+    exe = vlib.build_harness("runsel", ["runsel.cpp"], "O1")
+    d = tempfile.mkdtemp(prefix="runsel-", dir=os.environ.get("VERIF_TMP", "/tmp"))
+    try:
+        wd = os.path.join(d, "w12_1")
+        os.makedirs(wd)
+        jf = os.path.join(wd, "jobs.tsv")
+        k0 = int(rp.get("first_index", 0))
+        with open(jf, "w") as f:
+            for k, txt in enumerate(rp["inputs"]):
+                p = os.path.join(d, "in%05d.pqi" % (k0 + k))
+                open(p, "w").write(txt)
+                f.write("%s\t%s\t%s\t\n" % (k0 + k, os.path.join(vlib.DB, rp.get("database", DBNAME)), p))
+        rc, so, se = vlib.sh([exe, jf], cwd=wd, timeout=60 * len(rp["inputs"]) + 60)
+        good, lost = 0, []
+        for line in so.split("\n"):
+            if line.startswith("{"):
+                try:
+                    r = json.loads(line)
+                except Exception:
+                    continue
+                if "rc" in r:
+                    good += 1
+                else:
+                    lost.append(r.get("job"))
+        ctx.case("replay-sequence", sample={"inputs": len(rp["inputs"]), "results": good, "lost": lost, "rc_proc": rc, "stderr": se[-200:]})
+        if rc != 0 or lost or good != len(rp["inputs"]):
+            ctx.violation(rp["key"], rp["what"], rp)
+    finally:
+        shutil.rmtree(d, ignore_errors=True)
+
+
 def replay(ctx, R):
     rp = json.load(open(ctx.replay))
+    no_result = lambda r: (r is None) or ("rc" not in r) or r.get("timeout") or r.get("crash") or ("dberr" in r)
+    if rp.get("kind") == "sequence":
+        return replay_sequence(ctx, rp)
+    if rp.get("kind") == "input" and "base_input_text" not in rp and "input_text" in rp:
+        # a single input that did not return (key noreturn:...): run it alone, 200 s
+        r = vlib.run_inputs([{"id": "x", "db": DBNAME, "text": rp["input_text"]}], timeout_each=200, workers=1).get("x")
+        ctx.case("replay", sample={"returned": not no_result(r)})
+        if no_result(r):
+            ctx.violation(rp["key"], rp["what"], rp)
+        return
     if rp.get("kind") != "input" or "base_input_text" not in rp:
         ctx.notes.append("replay of kind %s: re-running the obligations only" % rp.get("kind"))
         return
     jobs = [{"id": "b0", "db": DBNAME, "text": rp["base_input_text"]}, {"id": "v0", "db": DBNAME, "text": rp["input_text"]}]
-    res = vlib.run_inputs(jobs, timeout_each=30, workers=2)
+    # each of the two runs alone in its own process (workers >= jobs), generous limit
+    res = vlib.run_inputs(jobs, timeout_each=200, workers=2)
+    if no_result(res.get("b0")) or no_result(res.get("v0")):
+        ctx.violation("noreturn:replay", "a run of the replayed pair did not return a result within 200 s when run alone", rp)
+        return
     V = base_variant()
     V["k"] = rp.get("k", 1.0)
     V["mixscale"] = rp.get("mixscale", 1.0)
@@ -1037,8 +1119,13 @@ def replay(ctx, R):
     for kd, a, b in rp.get("renum", []):
         V["renum"][(kd, a)] = b
     rb, rv = res["b0"], res["v0"]
-    if rb.get("rc", 1) != rv.get("rc", 1):
-        ctx.violation(rp["key"], rp["what"], rp)
+    if (rb.get("rc", 1) != 0) != (rv.get("rc", 1) != 0):
+        if not rounding_floor_failure((rb.get("err") or "") + (rv.get("err") or "")):
+            ctx.violation(rp["key"], rp["what"], rp)
+        return
+    if str(rp.get("key", "")).startswith(("accept:", "noreturn:")):
+        # recorded as "one runs, the other does not": both run now, nothing else was claimed
+        ctx.case("replay", sample={"both_run": True})
         return
     cells = compare(None, V, rb, rv)
     bad = [c for c in cells if not c[6]]
